@@ -255,7 +255,11 @@ func (r *revisionSyncer) getRevisionFromLeader(schema string) (uint64, error) {
 	}
 
 	revision := &LeaderRevision{}
-	json.Unmarshal(responseBody, revision)
+	if err = json.Unmarshal(responseBody, revision); err != nil {
+		// a 200 whose body is not the revision document must not be taken for revision 0
+		r.metricCli.EmitCounter("follower.get.revision.err", 1, metrics.Tag("leader", leaderAddress))
+		return 0, fmt.Errorf("invalid revision response from leader %s: %v", leaderAddress, err)
+	}
 	r.metricCli.EmitGauge("follower.get.revision", revision.Revision, metrics.Tag("leader", leaderAddress))
 	return revision.Revision, nil
 }
